@@ -72,12 +72,14 @@ structure Server where
   clients : List Client := []              -- newest first (rfbNewClient links at the head)
   owner : Option Nat := none               -- screen->pointerClient
   now : Nat := 0                           -- wall clock, µs
+  hookViewOnly : Bool := false             -- the application's newClientHook sets cl->viewOnly
   deriving Repr
 
 inductive Callback where
   | kbd (c : Nat) (down : UInt8) (key : Nat)
   | ptr (c : Nat) (mask : Nat) (x y : Nat)
   | cut (c : Nat) (text : List UInt8)
+  | cutUtf8 (c : Nat) (text : List UInt8)      -- setXCutTextUTF8 (extended clipboard, Provide)
   deriving Repr, DecidableEq
 
 /-! ## messages (what one call of rfbProcessClientMessage reads) -/
@@ -178,13 +180,20 @@ def parseVersion (b : List UInt8) : Option (Option (Nat × Nat)) :=
     else none
   | _ => none
 
-/-- result of `screen->passwordCheck` on a 16-byte response: `none` = rejected, `some vo` = accepted
-with view-only flag (password position).  A parameter of the model (DES is C05's). -/
-abbrev AuthOracle := List UInt8 → Option Bool
+/-- external functions the model is parameterised by:
+* `auth`: result of `screen->passwordCheck` on a 16-byte response: `none` = rejected, `some vo` =
+  accepted, by a password at a view-only position (`vo = true`) or not.  DES is C05's.
+* `inflate`: zlib `inflate` of a complete stream: `none` = corrupt, `some s` = the inflated bytes
+  (assumed law, used by the driver: `inflate (compress s) = some s`). -/
+structure Oracles where
+  auth : List UInt8 → Option Bool
+  inflate : List UInt8 → Option (List UInt8)
+
+def noOracles : Oracles := ⟨fun _ => none, fun _ => none⟩
 
 def closeCl (cl : Client) : Client := { cl with isOpen := false }
 
-def handleHs (orc : AuthOracle) (cfg : Cfg) (cl : Client) : Msg → Client
+def handleHs (orc : Oracles) (cfg : Cfg) (cl : Client) : Msg → Client
   | .hsVersion b =>
     match parseVersion b with
     | none => { cl with outOfModel := true }
@@ -202,8 +211,10 @@ def handleHs (orc : AuthOracle) (cfg : Cfg) (cl : Client) : Msg → Client
       (if cl.minor = 889 then { cl with st := .normal } else { cl with st := .init })
     else closeCl cl
   | .hsAuth b =>
-    match orc b with
+    match orc.auth b with
     | none => closeCl cl
+    -- rfbCheckPasswordByList only ever RAISES cl->viewOnly (a flag set earlier, e.g. by the
+    -- application's newClientHook, survives a login with a full-access password)
     | some vo => { cl with st := .init, viewOnly := cl.viewOnly || vo }
   | .hsInit _ => { cl with st := .normal }
   | _ => cl
@@ -227,20 +238,48 @@ def sy (cfg : Cfg) (cl : Client) (y : Nat) : Nat := scaleY cfg cl.scaled y
 
 def popcount16 (n : Nat) : Nat := ((List.range 16).filter fun i => n.testBit i).length
 
-/-- extended-clipboard message (RFB_NORMAL, `isExtendedCutText`); only what is needed to stay in
-sync with the stream: the content (Provide) belongs to C18 and is out of this model -/
-def handleExtClip (cl : Client) (p : List UInt8) : Client :=
-  if p.length < 4 then closeCl cl else
+/-- the loop of `rfbProcessExtendedServerCutTextData` over the INFLATED stream `s`: for every
+format bit set in `flags` (bit 0 = text, 1 = RTF, 2 = HTML, ...) a 4-byte big-endian size and that
+many bytes; the text (bit 0) goes to `setXCutTextUTF8` as soon as it has been read (`deliver` =
+client not view-only and hook installed).  Result: (ok, outOfModel, callbacks); not ok = the client
+is closed (stream too short, size > 1 MiB).  A 0-byte format makes the code call `inflate` with
+`avail_out = 0`, whose return value is zlib-internal: not modelled. -/
+def provideLoop (deliver : Bool) (id flags : Nat) : List Nat → List UInt8 → Bool × Bool × List Callback
+  | [], _ => (true, false, [])
+  | i :: is, s =>
+    if !flags.testBit i then provideLoop deliver id flags is s
+    else if s.length < 4 then (false, false, [])
+    else
+      let size := be32At s 0
+      if size > 1048576 then (false, false, [])
+      else if size = 0 then (false, true, [])
+      else if (s.drop 4).length < size then (false, false, [])
+      else
+        let cb := if i = 0 ∧ deliver then [Callback.cutUtf8 id ((s.drop 4).take size)] else []
+        let r := provideLoop deliver id flags is ((s.drop 4).drop size)
+        (r.1, r.2.1, cb ++ r.2.2)
+
+/-- extended-clipboard message (RFB_NORMAL, `isExtendedCutText`): `p` = the payload (4 flag bytes,
+then action-specific data).  Caps / Request / Peek / Notify produce no input callback; Provide
+inflates the rest and hands the text to `setXCutTextUTF8` (content properties: C18). -/
+def handleExtClip (inflate : List UInt8 → Option (List UInt8)) (cfg : Cfg) (cl : Client)
+    (p : List UInt8) : Client × List Callback :=
+  if p.length < 4 then (closeCl cl, []) else
   let flags := be32At p 0
   if flags.testBit 24 then        -- Caps
     let formats := popcount16 flags
     let cl1 := if formats = 0 then { cl with extClip := false } else cl
-    if formats ≠ 0 ∧ p.length ≠ 4 + formats * 4 then closeCl cl
-    else if flags.testBit 0 then cl1 else { cl1 with extClip := false }
-  else if flags.testBit 25 then cl      -- Request (nothing stored to send)
-  else if flags.testBit 26 then cl      -- Peek
-  else if flags.testBit 28 then { cl with outOfModel := true }   -- Provide → C18
-  else cl
+    if formats ≠ 0 ∧ p.length ≠ 4 + formats * 4 then (closeCl cl, [])
+    else if flags.testBit 0 then (cl1, []) else ({ cl1 with extClip := false }, [])
+  else if flags.testBit 25 then (cl, [])      -- Request (nothing stored to send)
+  else if flags.testBit 26 then (cl, [])      -- Peek
+  else if flags.testBit 28 then               -- Provide
+    match inflate (p.drop 4) with
+    | none => (closeCl cl, [])
+    | some s =>
+      let r := provideLoop (!cl.viewOnly && cfg.utf8Hook) cl.id flags (List.range 16) s
+      (if r.1 then cl else { closeCl cl with outOfModel := r.2.1 || cl.outOfModel }, r.2.2)
+  else (cl, [])
 
 /-- which scaled screen the client uses after `rfbScalingSetup(cl, width/scale, height/scale)`
 (`scale > 0`): `rfbScalingFind` returns the screen itself when the dimensions are unchanged;
@@ -300,7 +339,6 @@ def handleNormal (cfg : Cfg) (owner : Option Nat) (cl : Client) :
       (r.1, if mask = 0 then none else some cl.id, r.2)
   | .cutText txt => (cl, owner, if cl.viewOnly then [] else [.cut cl.id txt])
   | .cutTextTooBig _ => (closeCl cl, owner, [])
-  | .cutTextExt p => (handleExtClip cl p, owner, [])
   | .fileTransfer _ => (closeCl cl, owner, [])
   | .setScale _ s =>
     if s = 0 then (closeCl cl, owner, []) else (setScale cfg cl s, owner, [])
@@ -315,10 +353,13 @@ def handleNormal (cfg : Cfg) (owner : Option Nat) (cl : Client) :
   | _ => (cl, owner, [])
 
 /-- the effect of one `rfbProcessClientMessage` once its reads have succeeded -/
-def handle (orc : AuthOracle) (cfg : Cfg) (owner : Option Nat) (cl : Client) (m : Msg) :
+def handle (orc : Oracles) (cfg : Cfg) (owner : Option Nat) (cl : Client) (m : Msg) :
     Client × Option Nat × List Callback :=
   match cl.st with
-  | .normal => handleNormal cfg owner cl m
+  | .normal =>
+    match m with
+    | .cutTextExt p => let r := handleExtClip orc.inflate cfg cl p; (r.1, owner, r.2)
+    | _ => handleNormal cfg owner cl m
   | _ => (handleHs orc cfg cl m, owner, [])
 
 /-! ## server level -/
@@ -338,7 +379,7 @@ def Server.isLive (s : Server) (i : Nat) : Bool :=
   | none => false
 
 /-- one `rfbProcessClientMessage(cl)` on a flat stream -/
-def stepFlat (orc : AuthOracle) (s : Server) (i : Nat) (bs : List UInt8) :
+def stepFlat (orc : Oracles) (s : Server) (i : Nat) (bs : List UInt8) :
     Server × List Callback × List UInt8 :=
   match s.find i with
   | none => (s, [], bs)
@@ -350,7 +391,7 @@ def stepFlat (orc : AuthOracle) (s : Server) (i : Nat) (bs : List UInt8) :
       (s.putOwner r.1 r.2.1, r.2.2, rest)
 
 /-- the event loop calls `rfbProcessClientMessage` while the connection is open and input remains -/
-def processFlat (orc : AuthOracle) : Nat → Server → Nat → List UInt8 → Server × List Callback
+def processFlat (orc : Oracles) : Nat → Server → Nat → List UInt8 → Server × List Callback
   | 0, s, _, _ => (s, [])
   | fuel + 1, s, i, bs =>
     if bs.isEmpty || !s.isLive i then (s, [])
@@ -360,7 +401,7 @@ def processFlat (orc : AuthOracle) : Nat → Server → Nat → List UInt8 → S
       (s2, cbs ++ cbs')
 
 /-- the same on a segmented stream -/
-def stepChunks (orc : AuthOracle) (s : Server) (i : Nat) (arr : List UInt8) (pend : List (List UInt8)) :
+def stepChunks (orc : Oracles) (s : Server) (i : Nat) (arr : List UInt8) (pend : List (List UInt8)) :
     Server × List Callback × List UInt8 × List (List UInt8) :=
   match s.find i with
   | none => (s, [], arr, pend)
@@ -371,7 +412,7 @@ def stepChunks (orc : AuthOracle) (s : Server) (i : Nat) (arr : List UInt8) (pen
       let r := handle orc s.cfg s.owner cl m
       (s.putOwner r.1 r.2.1, r.2.2, arr', pend')
 
-def processChunks (orc : AuthOracle) : Nat → Server → Nat → List UInt8 → List (List UInt8) →
+def processChunks (orc : Oracles) : Nat → Server → Nat → List UInt8 → List (List UInt8) →
     Server × List Callback
   | 0, s, _, _, _ => (s, [])
   | fuel + 1, s, i, arr, pend =>
@@ -384,7 +425,8 @@ def processChunks (orc : AuthOracle) : Nat → Server → Nat → List UInt8 →
 /-! ## application-side events -/
 
 def Server.connect (s : Server) (i : Nat) : Server :=
-  if s.clients.any (fun c => c.id == i) then s else { s with clients := { id := i } :: s.clients }
+  if s.clients.any (fun c => c.id == i) then s
+  else { s with clients := { id := i, viewOnly := s.hookViewOnly } :: s.clients }
 
 def Server.setViewOnly (s : Server) (i : Nat) (v : Bool) : Server :=
   match s.find i with
